@@ -21,18 +21,18 @@ PROPS = {
 }
 CORE_ASSUME = [
     "Verus 0.2026.09.13 + Z3 + vstd's specifications of core/alloc (Vec, Option, Result, Box, Rc, str, Chars, slices) and its UTF-8 theory",
-    "the extractor: token-level copy of the listed functions from /repo on every run plus the closed rewrite table (R1,R2,R3,R4,R9,R10,R15,R16,R17,R18,R25,R26,R27,R28); generated file and line map kept in /verif/out",
+    "the extractor: token-level copy of the listed functions from /repo on every run plus the closed rewrite table (R1,R2,R3,R4,R9,R10,R15,R16,R17,R18,R25,R26,R27,R28,R29,R30); generated file and line map kept in /verif/out",
     "std contracts restated on trusted helpers (external_body, body = the original std call): Vec::drain/extend/rev, Vec::splice(n.., w) with the result dropped, a relaxed load of a global atomic returns some value, sort+dedup, String::from, str indexing by a range (vstd specifies only its precondition), str::get -> SliceIndex::get, str::eq_ignore_ascii_case",
     "a str occupies at most isize::MAX bytes; a Vec<R> holds at most isize::MAX elements; stack depth fits i32 in normalize_index",
     "Clone returns an equal value for stack elements (SpanOrLiteral) and for rule types (Copy)",
     "closures passed to combinators are 'lawful': their precondition is implied by the state invariant and they satisfy the frame law and the refusal law (every operation is proved to satisfy both, given that its closure arguments do: induction over call trees). Closures whose preconditions need more than the invariant (stack_peek/stack_pop on a possibly empty stack) and Result::or_else chains (refusal law) are outside this class",
     "pointer identity of input slices (ptr::eq in Position::span) is not modelled: value equality of the input is proved instead",
-    "functions with ASSUMED contracts (external_body; not proved): BorrowedOrArc::as_str, SpanOrLiteral::as_borrowed_or_rc, Position::span, constrain_idxs (proved complete by a loop-free Kani harness), stack_match_peek_slice, Error::new_from_pos*, pairs::new (verified in the pairs unit)",
+    "functions with ASSUMED contracts (external_body; not proved): BorrowedOrArc::as_str, SpanOrLiteral::as_borrowed_or_rc, Position::span, Error::new_from_pos*, pairs::new (verified in the pairs unit)",
     "partial correctness for ParserState::repeat (it legitimately diverges on non-progressing closures)",
     "configurations: C03 is verified twice, with feature memchr OFF (skip_until -> skip_until_basic) and ON (memmem / memchr2 / memchr3 arms under the memchr crate's documented contract, declared on a stand-in module: ASSUMED dependency contract); the other properties use the memchr-OFF configuration; debug_assertions ON (debug_assert operands are proved)",
 ]
 CORE_NOT_COVERED = [
-    "ParserState::stack_push_literal (generic Into<Cow<'static,str>> conversion) and stack_match_peek_slice's matcher (iterator adaptors + closure capturing &mut): contract assumed, not proved",
+    "ParserState::stack_push_literal (generic Into<Cow<'static,str>> conversions): not under contract",
     "Result::and_then / or_else are std, not pest; they appear only through the closure laws",
 ]
 
